@@ -296,6 +296,9 @@ fn e_backend(code: u32, flags: u32, size_delta: i32, variant: usize) {
     if code == fe::SET_BACKEND_REQ_FD {
         rd().fail = false; // this handler method returns (): it cannot fail
     }
+    if code == fe::SET_LOG_BASE && variant != 0 {
+        rd().fail = variant == 2; // concrete outcome instances (1: success, 2: failure)
+    }
     let (script_fail, ret, ret2, ret_file, ret_bytes, ret_len) = (rd().fail, rd().ret, rd().ret2, rd().ret_file, rd().ret_bytes, rd().ret_len);
 
     // ---- run the real code
@@ -339,7 +342,7 @@ fn e_backend(code: u32, flags: u32, size_delta: i32, variant: usize) {
     let r = rd();
     // single reachability witness (every satisfied cover costs one ~250 MB JSON trace, see DESIGN.md)
     let expect_call = served(code) && hdr_ok;
-    kani::cover!(if expect_call { r.calls == 1 && ok } else { !ok && r.calls == 0 }, "witness: accepted request reaches the handler / malformed one is rejected");
+    kani::cover!(if expect_call { r.calls == 1 && (ok || script_fail) } else { !ok && r.calls == 0 }, "witness: accepted request reaches the handler / malformed one is rejected");
     // ---- C05 / C07 / C02: handler reached exactly for well-formed, permitted requests, once
     assert!(r.calls <= 1);
     if r.calls == 1 {
@@ -1049,6 +1052,10 @@ e_be!(e_be_check_device_state_plain, 43, 0x1, 0, 0);
 e_be!(e_be_get_shmem_config_nr, 44, 0x9, 0, 0);
 // @harness props=C01,C03,C04,C07 tier=thorough reach=off timeout=400 bound="request 44 (GET_SHMEM_CONFIG), header flags 0x1 (version 1), declared size = body size; body bytes, 0..=2 attached descriptors, three 64-bit negotiation words and handler outcome symbolic; one request" stubs="vmm-sys-util raw_recvmsg/raw_sendmsg (ghost stream socket), libc::close + OwnedFd::drop (ghost descriptor table), handle_alloc_error (assume false)"
 e_be!(e_be_get_shmem_config_plain, 44, 0x1, 0, 0);
+// @harness props=C01,C02,C03,C04,C05,C07,C09 tier=quick reach=off timeout=400 bound="request 6 (SET_LOG_BASE), header flags 0x9 (version 1, NEED_REPLY), declared size = body size, handler succeeds (concrete outcome); body bytes, 0..=2 attached descriptors, three 64-bit negotiation words and handler outcome symbolic; one request" stubs="vmm-sys-util raw_recvmsg/raw_sendmsg (ghost stream socket), libc::close + OwnedFd::drop (ghost descriptor table), handle_alloc_error (assume false)"
+e_be!(e_be_set_log_base_ok_nr, 6, 0x9, 0, 1);
+// @harness props=C01,C02,C03,C04,C05,C07,C09 tier=quick reach=off timeout=400 bound="request 6 (SET_LOG_BASE), header flags 0x9 (version 1, NEED_REPLY), declared size = body size, handler fails (concrete outcome); body bytes, 0..=2 attached descriptors, three 64-bit negotiation words and handler outcome symbolic; one request" stubs="vmm-sys-util raw_recvmsg/raw_sendmsg (ghost stream socket), libc::close + OwnedFd::drop (ghost descriptor table), handle_alloc_error (assume false)"
+e_be!(e_be_set_log_base_fail_nr, 6, 0x9, 0, 2);
 // @harness props=C04,C05,C09 tier=thorough reach=off timeout=400 bound="request 2 with the REPLY bit set (flags 0xd): must be rejected; body bytes, 0..=2 attached descriptors, three 64-bit negotiation words and handler outcome symbolic; one request" stubs="vmm-sys-util raw_recvmsg/raw_sendmsg (ghost stream socket), libc::close + OwnedFd::drop (ghost descriptor table), handle_alloc_error (assume false)"
 e_be!(e_be_set_features_replybit, 2, 0xd, 0, 0);
 // @harness props=C04,C05,C09 tier=thorough reach=off timeout=400 bound="request 2 with declared size one byte short; body bytes, 0..=2 attached descriptors, three 64-bit negotiation words and handler outcome symbolic; one request" stubs="vmm-sys-util raw_recvmsg/raw_sendmsg (ghost stream socket), libc::close + OwnedFd::drop (ghost descriptor table), handle_alloc_error (assume false)"
